@@ -588,6 +588,14 @@ func engineConc(x *X) {
 		}
 	}
 	limit += 2 * planned
+	if cold, _ := p.Extra["cold"].(bool); cold && w.root != "" && !w.closed {
+		// the clients meet a server that has just been started on the directory: no repository is open yet
+		w.settle()
+		_ = w.close()
+		w.settle()
+		w.open()
+		x.out.probe("cold-start")
+	}
 	var wg simrt.WaitGroup
 	nc := len(p.Clients) - 1
 	c.done = make([]bool, nc)
@@ -937,7 +945,7 @@ func planC11(prop string, seed uint64, tier string, idx int) *Plan {
 	for c := 0; c < nc; c++ {
 		clients = append(clients, cg.clientOps(g.scale(g.r.between(3, 8)), ""))
 	}
-	return cg.finishConc(prop, clients)
+	return coldStart(cg.finishConc(prop, clients), seed)
 }
 
 func planC12(prop string, seed uint64, tier string, idx int) *Plan {
@@ -995,7 +1003,15 @@ func planC12(prop string, seed uint64, tier string, idx int) *Plan {
 		g.p.Profile += " (close in flight)"
 		clients = append(clients, []Op{{K: "sleep", Ms: int64(g.r.pick(0, 1, 3, 20))}, {K: "close"}})
 	}
-	return cg.finishConc(prop, clients)
+	return coldStart(cg.finishConc(prop, clients), seed)
+}
+
+// coldStart lets a third of the directory-store plans restart the server between the preparation and the concurrent phase.
+func coldStart(p *Plan, seed uint64) *Plan {
+	if p.Knobs.Store == "dir" && splitmix(seed^0xc01d)%3 == 0 {
+		p.Extra["cold"] = true
+	}
+	return p
 }
 
 func planC13(prop string, seed uint64, tier string, idx int) *Plan {
